@@ -129,7 +129,48 @@ def local_names(fn):
     return names - declared_global
 
 
-def writes_in_function(repo, inv, q, m, fn, cg=None):
+_CLASS_ALIAS = {}
+_CLASS_ALIAS_BUSY = set()
+
+
+def class_self_aliases(repo, inv, clsq, cg):
+    """{attr: object id} for instance attributes that every assignment in the class (and its bases) binds to one shared container:
+    `self.names = table.opname` in __init__ makes self.names[...] = v in any other method a write to the table's own list"""
+    key = (id(repo), clsq)
+    if key in _CLASS_ALIAS:
+        return _CLASS_ALIAS[key]
+    if key in _CLASS_ALIAS_BUSY:
+        return {}
+    _CLASS_ALIAS_BUSY.add(key)
+    try:
+        seen_alias, other = {}, set()
+        for cq in repo.mro(clsq):
+            for fq, (fm, ffn) in repo.functions.items():
+                c_ = enclosing_class(ffn)
+                if c_ is None or getattr(c_, "_qualname", None) != cq:
+                    continue
+                al = writes_in_function(repo, inv, fq, fm, ffn, cg, want_self_alias=True)
+                for n in ast.walk(ffn):
+                    tg = []
+                    if isinstance(n, ast.Assign):
+                        tg = n.targets
+                    elif isinstance(n, (ast.AugAssign, ast.AnnAssign)):
+                        tg = [n.target]
+                    for t in tg:
+                        for x in ast.walk(t):
+                            if isinstance(x, ast.Attribute) and isinstance(x.ctx, ast.Store) and isinstance(x.value, ast.Name) and x.value.id == "self":
+                                if x.attr in al and isinstance(n, ast.Assign) and len(n.targets) == 1 and n.targets[0] is x:
+                                    seen_alias.setdefault(x.attr, set()).add(al[x.attr])
+                                else:
+                                    other.add(x.attr)
+        res = {a: next(iter(o)) for a, o in seen_alias.items() if len(o) == 1 and a not in other}
+    finally:
+        _CLASS_ALIAS_BUSY.discard(key)
+    _CLASS_ALIAS[key] = res
+    return res
+
+
+def writes_in_function(repo, inv, q, m, fn, cg=None, want_self_alias=False):
     """[(object id, node, how)] for writes to shared mutable objects in fn"""
     out = []
     locs = local_names(fn)
@@ -153,8 +194,9 @@ def writes_in_function(repo, inv, q, m, fn, cg=None):
                 # a local that is only ever bound to a shared object (x = TABLE; x.update(...)) is that object
                 if nm in _aliasing:
                     return None
-                binds = [a for a in ast.walk(fn) if isinstance(a, ast.Assign) and len(a.targets) == 1 and isinstance(a.targets[0], ast.Name) and a.targets[0].id == nm]
-                others = [a for a in ast.walk(fn) if (isinstance(a, (ast.AugAssign, ast.AnnAssign, ast.For, ast.NamedExpr, ast.comprehension, ast.With)) and any(
+                binds = [a for a in ast.walk(fn) if (isinstance(a, ast.Assign) and len(a.targets) == 1 and isinstance(a.targets[0], ast.Name) and a.targets[0].id == nm) or
+                         (isinstance(a, ast.AnnAssign) and a.value is not None and isinstance(a.target, ast.Name) and a.target.id == nm)]
+                others = [a for a in ast.walk(fn) if (isinstance(a, (ast.AugAssign, ast.For, ast.NamedExpr, ast.comprehension, ast.With)) and any(
                     isinstance(x, ast.Name) and x.id == nm and isinstance(x.ctx, ast.Store) for x in ast.walk(a.target if hasattr(a, "target") else a)))]
                 if binds and not others and all(isinstance(a.value, (ast.Name, ast.Attribute)) for a in binds):
                     _aliasing.add(nm)
@@ -177,6 +219,10 @@ def writes_in_function(repo, inv, q, m, fn, cg=None):
             b = base.value
             if isinstance(b, ast.Name) and b.id in ("self", "cls") and attr in self_alias:
                 return self_alias[attr]
+            if isinstance(b, ast.Name) and b.id == "self" and clsq and not want_self_alias and hasattr(repo, "functions") and cg is not None:
+                ca = class_self_aliases(repo, inv, clsq, cg)
+                if attr in ca:
+                    return ca[attr]
             if isinstance(b, ast.Name) and b.id in ("self", "cls") and clsq:
                 for cq in repo.mro(clsq):
                     if (cq, attr) in inv.alias_attrs:
@@ -238,6 +284,8 @@ def writes_in_function(repo, inv, q, m, fn, cg=None):
             oid_ = resolve(n.value)
             if oid_:
                 self_alias[n.targets[0].attr] = oid_
+    if want_self_alias:
+        return self_alias
     for n in ast.walk(fn):
         if enclosing_function(n) is not fn and not isinstance(n, (ast.FunctionDef,)):
             pass
@@ -272,6 +320,68 @@ def writes_in_function(repo, inv, q, m, fn, cg=None):
     return out
 
 
+ONE_SHOT_CALLS = {"iter", "map", "filter", "zip", "reversed", "enumerate"}
+
+
+def is_one_shot_expr(v):
+    """an expression whose value is an iterator that the first reader uses up (Python 3 semantics of map/filter/zip)"""
+    if isinstance(v, ast.GeneratorExp):
+        return "a generator expression"
+    if isinstance(v, ast.Call) and isinstance(v.func, ast.Name) and v.func.id in ONE_SHOT_CALLS:
+        return "the iterator %s(...)" % v.func.id
+    return None
+
+
+def one_shot_globals(modules):
+    """{(module, name): (node, what)} for module-level names bound to a one-shot iterator and never rebound to something else at module level"""
+    out = {}
+    for name, m in modules.items():
+        for s in ast.walk(m.tree):
+            if enclosing_function(s) is not None or enclosing_class(s) is not None:
+                continue
+            tgt, val = None, None
+            if isinstance(s, ast.Assign) and len(s.targets) == 1 and isinstance(s.targets[0], ast.Name):
+                tgt, val = s.targets[0].id, s.value
+            elif isinstance(s, ast.AnnAssign) and s.value is not None and isinstance(s.target, ast.Name):
+                tgt, val = s.target.id, s.value
+            if tgt is None:
+                continue
+            what = is_one_shot_expr(val)
+            if what:
+                out[(name, tgt)] = (s, what)
+    return out
+
+
+def readers_of_global(repo, mod, name):
+    """[(function qualname, module, node)] for loads of the module-level name inside function bodies, in its own module and through imports"""
+    out = []
+    for q, (m, fn) in repo.functions.items():
+        local = None
+        if m.name == mod and name not in local_names(fn):
+            local = name
+        else:
+            for ln, target in m.imports.items():
+                if target == "%s.%s" % (mod, name) and ln not in local_names(fn):
+                    local = ln
+        if local is None:
+            continue
+        for n in ast.walk(fn):
+            if isinstance(n, ast.Name) and n.id == local and isinstance(n.ctx, ast.Load):
+                out.append((q, m, n))
+                break
+    return out
+
+
+def inv_tuples(modules):
+    """module-level names bound to tuple / frozenset / set / list displays or calls (the population R4 ranges over)"""
+    out = {}
+    for name, m in modules.items():
+        for s in m.tree.body:
+            if isinstance(s, ast.Assign) and len(s.targets) == 1 and isinstance(s.targets[0], ast.Name) and isinstance(s.value, (ast.Tuple, ast.List, ast.Set, ast.Call, ast.GeneratorExp)):
+                out[(name, s.targets[0].id)] = s
+    return out
+
+
 MEMO_DECORATORS = {"functools.lru_cache", "functools.cache", "functools._lru_cache_wrapper"}
 
 
@@ -289,9 +399,20 @@ def memoised(repo, m, fn):
     return None
 
 
-def mutable_result(fn):
-    """why the value this function hands back is one mutable object: a generator, a container display, or a local bound to one"""
+def mutable_result(fn, repo=None, cg=None, q=None, depth=0):
+    """why the value this function hands back is one mutable object: a generator, a container display, a local bound to one, or (through the resolved call graph)
+    what a callee hands back when that is one"""
     own = [n for n in ast.walk(fn) if enclosing_function(n) is fn]
+    if repo is not None and cg is not None and q is not None and depth < 3:
+        for n in own:
+            if isinstance(n, ast.Return) and isinstance(n.value, ast.Call):
+                for s_ in cg.sites.get(q, ()):
+                    if s_.node is n.value:
+                        for t_ in sorted(s_.targets):
+                            if t_ in repo.functions and t_ != q:
+                                why_ = mutable_result(repo.functions[t_][1], repo, cg, t_, depth + 1)
+                                if why_:
+                                    return "what %s returns (%s)" % (t_, why_)
     if any(isinstance(n, (ast.Yield, ast.YieldFrom)) for n in own):
         return "a generator (exhausted after the first caller)"
     local_mut = {}
@@ -368,6 +489,8 @@ def run(rep, tier):
                    "confirmed write-only / documented instances listed in rules/c18.py")
     rep.rule("R3", "a memoised function (functools.lru_cache / cache) reachable from a public operation does not hand the same mutable object (list, dict, set, generator) "
                    "to callers that modify it or pass it on")
+    rep.rule("R4", "no module-level name that a function reachable from a public operation reads is bound to a one-shot iterator (generator expression, iter/map/filter/zip/"
+                   "reversed/enumerate result): the first reader would use it up and every later call would see it empty")
     rep.rule("R2", "load_code builds a fresh unmarshaller whose reference and interned-string tables are new lists per call")
     repo = get_repo()
     T = tables()
@@ -412,7 +535,7 @@ def run(rep, tier):
         memo = memoised(repo, m, fn)
         if memo:
             n_memo += 1
-            why = mutable_result(fn)
+            why = mutable_result(fn, repo, cg, q)
             users = result_users(repo, cg, q) if why else []
             public = q in ROOTS
             bad = bool(why) and (public or bool(users))
@@ -425,6 +548,18 @@ def run(rep, tier):
     rep.extra["memoised_reachable_functions"] = n_memo
     rep.extra["shared_objects"] = {"module_level": len(inv.globals), "class_level": len(inv.class_attrs), "mutable_defaults": sorted("%s(%s)" % k for k in inv.defaults),
                                    "aliased_instance_attrs": sorted("%s.%s" % k for k in inv.alias_attrs)}
+    # ---------------------------------------------------------------- R4 one-shot iterators as module-level "constants"
+    shots = one_shot_globals(repo.modules)
+    for (mod_, nm_), (node_, what_) in sorted(shots.items()):
+        rds = [(q_, m_, n_) for q_, m_, n_ in readers_of_global(repo, mod_, nm_) if q_ in seen]
+        rep.ob("R4", "%s.%s" % (mod_, nm_), "one-shot-iterator-read-by-operations", not rds, expected="a tuple / list / frozenset (re-readable)", derived="%s, read by %s" % (what_, [q_ for q_, _, _ in rds][:3]),
+               where=repo.where(repo.modules[mod_], node_),
+               msg="%s.%s is %s: the first membership test or loop in %s uses it up, so every later call sees an empty collection" % (mod_, nm_, what_, rds[0][0] if rds else "-"))
+    n_consts = 0
+    for (mod_, nm_), node_ in sorted(inv_tuples(repo.modules).items()):
+        n_consts += 1
+    rep.floor("module-level tuple/frozenset constants inspected for one-shot iterators", n_consts, 20)
+    rep.extra["one_shot_module_level_iterators"] = sorted("%s.%s" % k_ for k_ in shots)
     # ---------------------------------------------------------------- positive control
     src = ("CACHE = {}\nNAMES = {}\nclass K:\n    table = []\n    mode = None\n    def f(self, x):\n        self.table.append(x)\n        return self.mode\n"
            "def g(k, memo={}):\n    CACHE[k] = 1\n    memo[k] = 2\ndef h(extra):\n    names = NAMES\n    names.update(extra)\n    copy = dict(NAMES)\n    copy.update(extra)\n"
@@ -463,6 +598,19 @@ def run(rep, tier):
         got += [o for o, n_, h in writes_in_function(FakeRepo(), cinv, qn, m_, fn_)]
     if sorted(got) != ["class:ctl.K.table", "classattr:ctl.K.mode", "default:ctl.g(memo)", "global:ctl.CACHE", "global:ctl.NAMES", "global:ctl.NAMES", "globalvar:ctl.WIDTH"]:
         raise AnalysisError("positive control failed: %s" % got)
+    ctl_shot = ast.parse("A = (x for x in (1, 2))\nB = tuple(x for x in (1, 2))\nC = map(str, (1, 2))\nD = (1, 2)\n")
+    for n_ in ast.walk(ctl_shot):
+        for ch_ in ast.iter_child_nodes(n_):
+            ch_._parent = n_
+
+    class _M(object):
+        tree = ctl_shot
+    try:
+        got_shots = sorted(k_[1] for k_ in one_shot_globals({"ctl2": _M()}))
+    except Exception as ex:
+        got_shots = "error: %s" % ex
+    if got_shots != ["A", "C"]:
+        raise AnalysisError("positive control (one-shot iterators) failed: %s" % (got_shots,))
     memo_ctl = {qn: (memoised(FakeRepo(), m_, fn_), mutable_result(fn_)) for qn, (m_, fn_) in fns.items() if memoised(FakeRepo(), m_, fn_)}
     if set(memo_ctl) != {"ctl.labels", "ctl.width"} or not memo_ctl["ctl.labels"][1] or memo_ctl["ctl.width"][1]:
         raise AnalysisError("positive control (memoised functions) failed: %s" % memo_ctl)
